@@ -7,3 +7,4 @@ Check C10_ok_bounds : forall p buf l cap, unpack p buf = Ok (l, cap) -> l <= cap
 Check C10_accepts_iff : forall p buf, (exists v, unpack p buf = Ok v) <-> (layout_ok p buf /\ stored_len p buf <= capacity_of p buf /\ stored_len p buf < USIZE_LIMIT).
 Check C10_spec : forall p buf, match unpack p buf with | Ok (l, cap) => layout_ok p buf /\ l = stored_len p buf /\ cap = capacity_of p buf /\ l <= cap /\ l < USIZE_LIMIT | Err _ => ~ (layout_ok p buf /\ stored_len p buf <= capacity_of p buf) | Panic => layout_ok p buf /\ USIZE_LIMIT <= stored_len p buf end.
 Check C10_padding : forall p, 1 <= alT p -> data_start p mod alT p = 0 /\ header_padding p < alT p.
+Check C10_visible_in_bounds : forall p buf xs, visible p buf = Ok xs -> exists l cap, unpack p buf = Ok (l, cap) /\ length xs = N.to_nat l /\ data_start p + l * szT p <= len buf.
